@@ -124,12 +124,14 @@ class Model(Policy):
             if assertion.priority_index == -1:
                 continue
 
-            assertion.policy = sorted(
-                assertion.policy,
-                key=lambda x: int(x[assertion.priority_index])
-                if x[assertion.priority_index].isdigit()
-                else x[assertion.priority_index],
-            )
+            def priority_key(rule, index=assertion.priority_index):
+                # the numeric value add_policy orders by: int() also reads negative priorities
+                try:
+                    return int(rule[index])
+                except ValueError:
+                    return rule[index]
+
+            assertion.policy = sorted(assertion.policy, key=priority_key)
 
             for i, policy in enumerate(assertion.policy):
                 assertion.policy_map[",".join(policy)] = i
